@@ -39,7 +39,7 @@ var dict = []string{
 	"\"", "'", "`", "\\", "\\\"", "/*", "*/", "//", "<!--", "-->", "<script>", "</script>", "<style>", "</style>", "<script type=\"application/ld+json\">", "<![CDATA[", "]]>", "<a href=\"", "<a href='", "<a href=", "<img srcset=\"", "<div style=\"", "<p onclick=\"", "=", ">", "<", "</", "/>", "&", "&amp;", "&#", "&#x", "url(", "url(\"", "${", "}", "\n", "\r\n", "\r", "\t", "\x00", "\xef\xbb\xbf", "\xff", "\xc3", "\xe2\x80\xa8", "\u2028", "\u00a0", "\U0001F600",
 	"(", ")", "[", "]", "{", "}", ",", ";", ":", ":=", "...", ".", "..", "->", "<-", "++", "--", "&&", "||", "!", "==", "!=", "<=", ">=", "<<", ">>", "&^", "+=", "<<=", "%", "*", "/", "+", "-", "^", "|",
 	"func", "return", "var", "const", "type", "struct", "interface", "map", "chan", "package main", "import", "if", "else", "for", "range", "switch", "case", "default", "select", "go", "defer", "goto", "break", "continue", "fallthrough", "nil", "true", "false", "iota", "and", "or", "not", "contains", "in", "extends", "macro", "end",
-	"\"\\u00e", "\"\\u00e9\"", "\"\\U0001F60", "\"\\U0001F600\"", "\"\\x4", "\"\\x41\"", "\"\\10", "\"\\101\"", "'\\u00e", "'\\x4", "'\\10", "\"\\", "0", "1", "0x", "0x1p-2", "1e", "1e+", "0b", "0o", "0_", "1_000", "9223372036854775808", "1e400", ".5", "5.", "1i", "'a'", "'\\", "'\\u", "\"\\x", "\"\\u12", "\"\\U0010FFFF\"", "x.(", "x.(type)", "x[", "x[:", "x[::]", "f(", "f(x...", "[]int{", "map[string]int{", "struct{", "[...]int{", "*", "&x", "<-ch", "ch <- ", "make(", "new(", "len(", "append(", "print(", "panic(", "recover()", "close(", "complex(", "real(", "imag(", "cap(", "copy(", "delete(", "unsafe",
+	"/* è */", "/* 世界\n😀 */ ", "{# é #}", "// ö\n", "è", "世界", "\"\\u00e", "\"\\u00e9\"", "\"\\U0001F60", "\"\\U0001F600\"", "\"\\x4", "\"\\x41\"", "\"\\10", "\"\\101\"", "'\\u00e", "'\\x4", "'\\10", "\"\\", "0", "1", "0x", "0x1p-2", "1e", "1e+", "0b", "0o", "0_", "1_000", "9223372036854775808", "1e400", ".5", "5.", "1i", "'a'", "'\\", "'\\u", "\"\\x", "\"\\u12", "\"\\U0010FFFF\"", "x.(", "x.(type)", "x[", "x[:", "x[::]", "f(", "f(x...", "[]int{", "map[string]int{", "struct{", "[...]int{", "*", "&x", "<-ch", "ch <- ", "make(", "new(", "len(", "append(", "print(", "panic(", "recover()", "close(", "complex(", "real(", "imag(", "cap(", "copy(", "delete(", "unsafe",
 }
 
 func pick(t *rapid.T, label string, xs []string) string { return rapid.SampledFrom(xs).Draw(t, label) }
@@ -47,6 +47,7 @@ func pick(t *rapid.T, label string, xs []string) string { return rapid.SampledFr
 // richSeeds are hand-written valid sources that contain every literal and escape form the
 // lexer knows, so that truncations and mutations land inside them.
 var richTemplates = []string{
+	"{# perché 世界 #}{{ /* è */ a /* 😀 */ + b }}{% x := /* 日本 */ 1 %}è世界 {{ \"é\" /* ü */ }}{# ö\n世界 #}{{ c }}\n{%%\n/* è\n世界 */ y := x /* ü */ * 2\n%%}",
 	"{{ \"a\\u00e9b\\U0001F600c\\x41\\101\\n\\t\\\\\\\"\" }}{{ 'x' }}{{ '\\u00e9' }}{{ '\\U0001F600' }}{{ '\\x41' }}{{ '\\101' }}{{ '\\'' }}{{ `raw\n{{ }}` }}",
 	"{% var a = 0x1F + 0b101 + 0o17 + 017 + 1_000 %}{% var f = 1.5e+10 + .5 + 5. + 0x1p-2 + 1e3 %}{% var c = 2i + 1.5i %}{{ a }}{{ f }}{{ c }}",
 	"{%% \nvar s = \"\\u00e9\"\nvar r = '\\U0001F600'\n/* block\ncomment */\n// line comment\nx := 1\n%%}{# comment {# nested #} #}{% raw %}{{ \"\\u00\" }}{% end raw %}",
@@ -54,6 +55,7 @@ var richTemplates = []string{
 }
 
 var richPrograms = []string{
+	"package main\n\nfunc main() {\n\t/* perché no */ x := 1 /* 世界 */ + 2 /* 😀 */\n\t/* è\n\t世界 */ y := x /* ü */ * 2\n\ts := \"è世界\" /* é */ + `😀` // ö\n\t_, _ = y, s /* 日本 */\n}\n",
 	"package main\n\nimport \"fmt\"\n\nconst s = \"a\\u00e9b\\U0001F600c\\x41\\101\\n\"\n\nvar r = []rune{'x', '\\u00e9', '\\U0001F600', '\\x41', '\\101', '\\''}\n\nfunc main() {\n\tfmt.Println(s, r, `raw\n`, 0x1F, 0b101, 0o17, 1_000, 1.5e+10, .5, 0x1p-2, 2i)\n\t/* block\n\tcomment */\n}\n",
 }
 
